@@ -532,8 +532,10 @@ package rux
 //@   ensures suffix_is_new: forall i int :: 0 <= i && i < len(middleware) ==> r.handlers[old(len(r.handlers)) + i] == old(middleware[i])
 //@   ensures must_reject: !(old(len(r.handlers)) + len(middleware) >= 63)
 //
-//@ func (*Router).Use [C04, C12]
+//@ func (*Router).Use [C04, C12, C13]
 //@   modifies r.handlers, elems(r.handlers), r.currentGroupHandlers, elems(r.currentGroupHandlers)
+//@   panics *
+//@   ensures[C13] global_chain_within_limit: old(r.currentGroupPrefix) == "" ==> len(r.handlers) < 63
 //@   ensures in_group_only_group_list: old(r.currentGroupPrefix) != "" ==> r.handlers == old(r.handlers)
 //@       && len(r.currentGroupHandlers) == old(len(r.currentGroupHandlers)) + len(middles)
 //@       && (forall i int :: 0 <= i && i < old(len(r.currentGroupHandlers)) ==> r.currentGroupHandlers[i] == old(r.currentGroupHandlers[i]))
@@ -1031,6 +1033,7 @@ package rux
 //@   ensures[C13] accepted_is_valid: route.handler != nil && len(route.methods) > 0 && len(route.handlers) < 63
 //@       && (forall i int :: 0 <= i && i < len(route.methods) ==> isMethod(route.methods[i]))
 //@   ensures[C13, C02] dynamic_is_well_formed: !fixedPath(route.path) ==> routeWF(route)
+//@   ensures[C13] whole_chain_within_limit: len(r.handlers) + len(route.handlers) + 1 <= 63
 //@   ensures wf: tablesCore(r) && tablesSep(r) && noCacheEntries(r)
 //@   ensures[C15] named: route.name != "" ==> route.name in r.namedRoutes && r.namedRoutes[route.name] == route
 //@   ensures[C15] other_names_kept: forall n string :: n != route.name ==> (n in r.namedRoutes) == old(n in r.namedRoutes) && r.namedRoutes[n] == old(r.namedRoutes[n])
